@@ -21,7 +21,7 @@ theorem Expr.ok_any : ∀ e : Expr, e.ok Chk.any = true
   | .and a b => by simp [Expr.ok, Expr.ok_any a, Expr.ok_any b]
   | .or a b => by simp [Expr.ok, Expr.ok_any a, Expr.ok_any b]
   | .not a => by simp [Expr.ok, Expr.ok_any a]
-  | .index a b => by simp [Expr.ok, Expr.ok_any a, Expr.ok_any b]
+  | .index a b => by simp [Expr.ok, Expr.ok_any a, Expr.ok_any b]; rfl
   | .slice l lo hi => by simp [Expr.ok, Expr.ok_any l, Expr.okOpt_any lo, Expr.okOpt_any hi]
   | .attr e _ => by simp [Expr.ok, Expr.ok_any e]
   | .call f args => by simp [Expr.ok, Expr.ok_any f, Expr.okList_any args]
@@ -78,11 +78,13 @@ theorem inv_retag {S : Sys} {r : Rel} (hset : ∀ k t, Inv r (toksSet k t)) (l x
   unfold retag
   refine inv_bind (pres_getVar _).inv fun cv => inv_bind ?_ fun args => inv_bind ?_ fun v =>
     inv_bind (pres_getVar _).inv fun lv => inv_bind (pres_getVar _).inv fun iv => inv_storeIndex hset _ _ _
-  · split
+  · unfold retagArgs
+    split
     · exact inv_bind (pres_getVar _).inv fun _ => inv_bind (pres_getVar _).inv fun _ =>
         inv_bind (pres_indexVal _ _).inv fun _ => inv_bind (pres_tokArg _).inv fun _ => inv_pure _ _
     · exact inv_pure _ _
-  · split
+  · unfold retagCtor
+    split
     · exact (pres_construct _ _ _).inv
     · exact pres_typeErr.inv
     · exact pres_unmod.inv
@@ -206,24 +208,5 @@ theorem call_length_noLen (S : Sys) (htab : ∀ fd ∈ S.funs.toList, fd.ok Chk.
     let st' := ((run S n).call f args st).2
     st'.toks.size = st.toks.size ∧ st'.nIns = st.nIns ∧ st'.nDel = st.nDel :=
   (inv_run (sound_noLen S) htab n).call f args st
-
-/-! ### (V) values under `Chk.value` -/
-
-/-- `v` is the value some constructor of the system gives regardless of its argument -/
-def isFixed (S : Sys) (v : Str) : Prop :=
-  ∃ c lo, S.ctor1 c = .fixed v lo ∨ S.ctor0 c = some (v, lo)
-
-def valAt (st : State) (i : Nat) : Option Str := (st.toks[i]?).map (·.val)
-
-def valRel (S : Sys) : Rel where
-  I s s' := s'.toks.size = s.toks.size ∧ ∀ i, valAt s' i = valAt s i ∨ ∃ v, valAt s' i = some v ∧ isFixed S v
-  refl _ := ⟨rfl, fun _ => Or.inl rfl⟩
-  trans a b c h1 h2 := ⟨h2.1.trans h1.1, fun i => by
-    rcases h2.2 i with e2 | f2
-    · rcases h1.2 i with e1 | ⟨v, hv, hf⟩
-      · exact Or.inl (e2.trans e1)
-      · exact Or.inr ⟨v, e2.trans hv, hf⟩
-    · exact Or.inr f2⟩
-  ext s s' h1 _ _ := ⟨by rw [h1], fun i => Or.inl (by unfold valAt; rw [h1])⟩
 
 end Vsgm.Prog
